@@ -568,9 +568,10 @@ fn call_valid(name: &'static str, args: &[J], cx: &mut Ctx) -> R {
             if a.is_empty() {
                 return Ok(J::Null);
             }
-            let mut s = 0.0;
-            for x in a {
-                s += x.as_num().unwrap();
+            let xs: Vec<f64> = a.iter().map(|x| x.as_num().unwrap()).collect();
+            let (s, loose) = float_sum(&xs);
+            if loose {
+                cx.ambiguous.push("sum-rounding");
             }
             num(s / a.len() as f64)
         }
@@ -718,9 +719,10 @@ fn call_valid(name: &'static str, args: &[J], cx: &mut Ctx) -> R {
             Ok(J::Arr(items.into_iter().map(|p| p.1).collect()))
         }
         "sum" => {
-            let mut s = 0.0;
-            for x in a0.as_arr().unwrap() {
-                s += x.as_num().unwrap();
+            let xs: Vec<f64> = a0.as_arr().unwrap().iter().map(|x| x.as_num().unwrap()).collect();
+            let (s, loose) = float_sum(&xs);
+            if loose {
+                cx.ambiguous.push("sum-rounding");
             }
             num(s)
         }
@@ -762,4 +764,39 @@ fn call_valid(name: &'static str, args: &[J], cx: &mut Ctx) -> R {
         "type" => Ok(J::s(a0.type_name())),
         _ => unreachable!(),
     }
+}
+
+/// Sum of doubles the way the specification leaves it: "the sum", computed in floating point
+/// in some order with some care.  Returns the plain left-to-right sum and a flag that is set
+/// when different reasonable summation methods (plain, compensated, pairwise) can differ by
+/// more than the comparison tolerance: some rounding happened AND the a-priori error bound
+/// n * eps * sum|x| is not negligible against the result (cancellation).  Consumers then
+/// accept any result within that bound (`sum_bound`).
+pub fn float_sum(xs: &[f64]) -> (f64, bool) {
+    let mut plain = 0.0f64;
+    // Neumaier: the running compensation is exactly the accumulated rounding error
+    let (mut s, mut comp) = (0.0f64, 0.0f64);
+    let mut any_rounding = false;
+    for &x in xs {
+        plain += x;
+        let t = s + x;
+        let e = if s.abs() >= x.abs() { (s - t) + x } else { (x - t) + s };
+        if e != 0.0 {
+            any_rounding = true;
+        }
+        comp += e;
+        s = t;
+    }
+    let best = s + comp;
+    if !plain.is_finite() || !best.is_finite() {
+        return (plain, false);
+    }
+    let loose = any_rounding && sum_bound(xs) > 1e-10 * best.abs().max(plain.abs());
+    (plain, loose)
+}
+
+/// A-priori bound on the error of any floating-point summation of `xs`.
+pub fn sum_bound(xs: &[f64]) -> f64 {
+    let abs: f64 = xs.iter().map(|x| x.abs()).sum();
+    2.0 * (xs.len() as f64 + 1.0) * f64::EPSILON * abs
 }
